@@ -186,8 +186,9 @@ def r93(ctx, prog):
             good = len(ps) == 1 and ps[0][0][0] == 'app' and ps[0][0][1].endswith('::get') and ps[0][0][2] == (('proj', SYM('self'), ('variables',)), SYM('identifier'))
             ctx.check(good, 'R9.4', 'HashMapContext::get_value', 'namespace', 'variables are looked up only in the `variables` map (returns %s)' % [fmt(p[0]) for p in ps], span=h.span if h else None)
             # the switch is a plain field of a derived-Clone struct, untouched by clear*
-            cl = [i for i in prog.facts['impls'] if path_endswith(i.get('trait') or '', 'clone::Clone') and i['self_ty'].startswith('context::HashMapContext<')]
-            ctx.check(len(cl) == 1 and cl[0]['derived'], 'R9.4', 'HashMapContext:Clone', 'derived-clone', 'Clone for HashMapContext is derived (copies the switch field with the maps)')
+            from rules.common import fieldwise_clone
+            okc, how = fieldwise_clone(prog)
+            ctx.check(okc, 'R9.4', 'HashMapContext:Clone', 'derived-clone', 'Clone for HashMapContext is the field-wise clone: it copies the switch field with the maps (%s)' % how)
             for m in ('clear', 'clear_variables', 'clear_functions'):
                 mf = prog.fn('context::HashMapContext::<NumericTypes>::' + m)
                 if mf is None:
